@@ -25,8 +25,15 @@ type wCase struct {
 	Params ck.Params  `json:"params"`
 	Accts  []acctDesc `json:"accts"`
 	Blocks []wBlock   `json:"blocks"`
-	Order  []int      `json:"order,omitempty"` // delivery order selectors (chainkit.ApplyOrder); empty = in index order
-	Lazy   []int      `json:"lazy,omitempty"`  // delivery positions after which the wallet updater does not get to run
+	Order  []int      `json:"order,omitempty"`  // delivery order selectors (chainkit.ApplyOrder); empty = in index order
+	Lazy   []int      `json:"lazy,omitempty"`   // delivery positions after which the wallet updater does not get to run
+	Rescan []int      `json:"rescan,omitempty"` // delivery positions after which a rescan is requested (before the updater runs, if it runs)
+	// LagFrom/LagLen: a stretch of deliveries during which the wallet updater does not run at all;
+	// Partial: positions (and step counts 1-6) after which it takes only that many actions, so that it
+	// can be in the middle of following one reorganisation when the next one happens
+	LagFrom int      `json:"lag_from,omitempty"`
+	LagLen  int      `json:"lag_len,omitempty"`
+	Partial [][2]int `json:"partial,omitempty"`
 }
 
 var wKinds = []string{"pay", "pay", "payvote", "payvote", "payvote", "wspend", "wspend", "wveto", "wveto", "wveto", "wvote", "issuepay", "wxfer", "wmerge", "wmerge"}
@@ -132,6 +139,27 @@ func genWCase(prefixMin, prefixMax, runsMin, runsMax int, epochs []uint64, farBa
 		for i := 0; i < nl; i++ {
 			c.Lazy = append(c.Lazy, rapid.IntRange(0, len(c.Blocks)-1).Draw(t, "lazy"))
 		}
+		if rapid.IntRange(0, 2).Draw(t, "lagq") == 0 {
+			c.LagFrom = rapid.IntRange(0, len(c.Blocks)-1).Draw(t, "lagfrom")
+			c.LagLen = rapid.IntRange(2, 10).Draw(t, "laglen")
+		}
+		for i := rapid.IntRange(0, 3).Draw(t, "npartial"); i > 0; i-- {
+			at := rapid.IntRange(0, len(c.Blocks)-1).Draw(t, "partialat")
+			if c.LagLen > 0 && rapid.Bool().Draw(t, "partialinlag") {
+				at = c.LagFrom + rapid.IntRange(0, c.LagLen).Draw(t, "partialoff")
+			}
+			c.Partial = append(c.Partial, [2]int{at, rapid.IntRange(1, 6).Draw(t, "partialsteps")})
+		}
+		// a rescan request (rescan API, alias update, account deletion) at some point, preferably while the wallet lags
+		if rapid.IntRange(0, 3).Draw(t, "rescanq") == 0 {
+			for i := rapid.IntRange(1, 2).Draw(t, "nrescan"); i > 0; i-- {
+				at := rapid.IntRange(0, len(c.Blocks)-1).Draw(t, "rescan")
+				if len(c.Lazy) > 0 && rapid.Bool().Draw(t, "rescanlazy") {
+					at = c.Lazy[rapid.IntRange(0, len(c.Lazy)-1).Draw(t, "rescanat")] + rapid.IntRange(0, 1).Draw(t, "rescanoff")
+				}
+				c.Rescan = append(c.Rescan, at)
+			}
+		}
 		return c
 	}
 }
@@ -178,6 +206,22 @@ func walletExec(mode judgeMode) func(c wCase, x *pbt.Ctx) error {
 			lazy[abs(l)%nb] = true
 		}
 
+		for k := 0; k < c.LagLen && k < 12; k++ {
+			lazy[(abs(c.LagFrom)+k)%nb] = true
+		}
+		partial := map[int]int{}
+		for _, pp := range c.Partial {
+			if pp[1] > 0 {
+				partial[abs(pp[0])%nb] = pp[1]
+				delete(lazy, abs(pp[0])%nb)
+			}
+		}
+		rescan := map[int]bool{}
+		for _, r := range c.Rescan {
+			rescan[abs(r)%nb] = true
+		}
+		rescans, partials := 0, 0
+
 		var hist []string // what the wallet did, for the failure message
 		restored := map[bc.Hash]int{}
 		accepted := map[int]bool{0: true}
@@ -220,12 +264,21 @@ func walletExec(mode judgeMode) func(c wCase, x *pbt.Ctx) error {
 				prevHeight = h
 			}
 			last := k == len(order)-1
+			if rescan[k] {
+				e.wal.VerifRescan()
+				rescans++
+				hist = append(hist, fmt.Sprintf("rescan requested after delivery of #%d", i))
+			}
 			if lazy[k] && !last {
 				lagged++
 				hist = append(hist, fmt.Sprintf("deliver #%d (wallet does not run)", i))
 				continue
 			}
-			l, err := e.quiesce(e.wal)
+			maxSteps := -1
+			if s, ok := partial[k]; ok && !last {
+				maxSteps = s
+			}
+			l, err := e.steps(e.wal, maxSteps)
 			if err != nil {
 				return fmt.Errorf("after delivery of block #%d: %v\nhistory: %s", i, err, strings.Join(hist, " | "))
 			}
@@ -257,6 +310,12 @@ func walletExec(mode judgeMode) func(c wCase, x *pbt.Ctx) error {
 					as = append(as, e.describeBlock(a))
 				}
 				ev += " => wallet attaches " + strings.Join(as, ", ")
+			}
+			if maxSteps >= 0 {
+				// the updater was interrupted: nothing is judged until it has caught up
+				partials++
+				hist = append(hist, ev+fmt.Sprintf(" (updater stopped after %d actions)", maxSteps))
+				continue
 			}
 			hist = append(hist, ev)
 
@@ -328,6 +387,15 @@ func walletExec(mode judgeMode) func(c wCase, x *pbt.Ctx) error {
 		x.Class("reorgs-%d", min(reorgs, 3))
 		if lagged > 0 {
 			x.Class("wallet-lagged")
+		}
+		if rescans > 0 {
+			x.Class("rescan-requested")
+		}
+		if partials > 0 {
+			x.Class("updater-interrupted")
+		}
+		if c.LagLen > 0 {
+			x.Class("lag-window")
 		}
 		if shrank > 0 {
 			x.Class("chain-got-shorter")
